@@ -1,7 +1,7 @@
 HOOK_COMMITS = []
 NOTES = "All checks are property-based (rapid) or fuzzing searches against explicit oracles; see DESIGN.md. Known findings: known_findings.json."
 NOT_YET = {}
-add("C04", "rapid-generated grammars vs. independent canonical-LR(1)->LALR(1) reference (differential, both verdict and automaton isomorphism)",
+add("C04", "rapid-generated grammars vs. independent canonical-LR(1)->LALR(1) reference (differential, both verdict and automaton isomorphism); thorough tier adds a coverage-guided native fuzz campaign over the same structured generator (rapid.MakeFuzz)",
     "Generated-input search: thousands of random grammars (not filtered by acceptance) per run; verdict and full automaton compared with an independent reference construction; 5% also through the real codegen.Generate diagnostic path. Shows absence of disagreement on the explored grammars only.",
     "Trusts the reference LALR(1) construction in harness/lib/cfgm (cross-checked against Earley by C01) and the documented desugaring; canonical LR(1) capped at 3000 states (skips counted).",
     "DESIGN.md §3 C04")
@@ -33,9 +33,9 @@ add("C07", "rapid-generated mode graphs and action orderings x texts walking the
     "Generated-input search over nested/recursive mode graphs, rules with several mode actions and emit/discard written at any position; streams compared with a reference lexer that applies mode actions in written order and the emit/discard regardless of position.",
     "Same trusted base as C02.",
     "DESIGN.md §3 C07")
-add("C08", "rapid-generated non-greedy rules (prefix, body, self-overlapping terminators) x texts with terminator look-alikes; compiled lexer vs. an oracle written directly from the statement",
-    "Generated-input search: the token must end at the first occurrence of the terminator after the prefix (>=1 repetition for +?) with all code points in between in the body set; greedy neighbours checked by the derivative reference lexer.",
-    "Greedy rules that share a first character with a non-greedy rule are outside the generated domain (undocumented interaction).",
+add("C08", "rapid-generated non-greedy rules (prefix, body, self-overlapping terminators) x texts with terminator look-alikes; compiled lexer vs. an oracle written directly from the statement; second part: greedy rules sharing a prefix with the non-greedy rule and mode actions on non-greedy rules vs. C02's longest-run rule over the statement's languages",
+    "Generated-input search in two parts. Part 1: the token must end at the first occurrence of the terminator after the prefix (>=1 repetition for +?) with all code points in between in the body set; greedy neighbours (disjoint first characters) by the derivative reference lexer. Part 2: greedy rules that share a prefix with the non-greedy rule (its shortest match as a literal, identifier-like rules, literals ending inside the repetition), non-greedy rules pushing / popping modes; every rule has the language the statement gives it and the stream is C02's rule over those languages. The cross-rule defect of the pinned tree is a listed known finding attributed by an exact model of that one behaviour.",
+    "Part 1 keeps greedy rules off the non-greedy rules' first characters; part 2 trusts the reading 'a non-greedy rule's language = strings whose first terminator occurrence is at the end'.",
     "DESIGN.md §3 C08")
 add("C11", "rapid-generated lexer specs without preconditions x texts; invariants over the recorded PushRune history (termination by step bounds, tiling of the input)",
     "Generated-input search with a recording proxy between the real simplelexer and the compiled state machine; the recorded history is replayed over the input bytes: EOF only at the end with nothing pending, tokens = accepted stretches, every byte in a token, a discarded stretch or an ERROR stretch; rejection of the spec with a diagnostic is the only other accepted outcome.",
@@ -60,7 +60,7 @@ add("C17", "rapid-generated well-formed multi-file specs and single-fault varian
     "DESIGN.md §3 C17")
 add("C12", "rapid-generated and mutated .lox texts through the in-process front end under recover; complete sweep of 30 Go-package configurations plus generated packages through the real generator and binary; native coverage-guided fuzzing (thorough)",
     "Generated-input search: tens of thousands of structurally mutated specifications per run (corpus = every grammar, example and documentation snippet of the repository + generated specs + hostile constants), every package configuration of a finite list through codegen.Generate with the real go list, a third also through the lox executable; outcome must be output-or-diagnostic, never a panic, a hang or a silent failure.",
-    "Hang detection uses generous wall-clock guards and only reports after an independent second run; panics are identified by their first frame inside the repository.",
+    "A hang verdict needs a second, independent run of the lox binary that is still going after 120 s of wall-clock time and has itself burnt 60 s of CPU time (a loaded machine cannot produce one); panics are identified by their first frame inside the repository. The thorough tier's native fuzzing uses an instrumented (coverage-guided) copy of the test binary.",
     "DESIGN.md §3 C12")
 add("C14", "complete sweep of the regeneration configuration space (directory x start state x invocation, seed-ordered) in a scratch copy of the working tree; byte-level round trip, two generator stages",
     "Exhaustive enumeration of a small finite space on every run: lox built from the working tree regenerates internal/parser and the three examples from every start state and invocation style; a second-stage lox rebuilt from the regenerated tree must reproduce the same bytes.",
